@@ -49,11 +49,16 @@ CFG = {
     "trivial_tags": ["plain"],
     "rule": "programs as data: 1-4 signals, 0-2 memos (memo-of-memo and the memo-then-its-source shape included), a view tree of depth <= 3 over "
             "{static text, (), element with static / reactive attribute / class / style, tuple, move|| text, move|| Either, <Show>, <For> over "
-            "signal-selected key lists (3/4 order-preserving families, 1/4 random permutations)}, a tenth of the cases with <Suspense> (over an "
+            "signal-selected key lists (3/4 order-preserving families, 1/4 random permutations)}; a QUARTER of the cases with COMPONENT-LOCAL STATE: "
+            "component bodies that create a Memo / RwSignal of their own before returning their view (`sc`), at the top of the mounted view, inside Show / Either "
+            "branches and inside the rows of a <For> whose rows are `<li>{k}{row view}</li>` built inside `children` (`forr`): row-local memos over outer signals "
+            "and the key, row-local signals written later through handles the harness keeps (`setl`, every live instance), nested Show / Either inside rows over "
+            "the row-local state, bodies inside those branches again; list writes that keep, drop, add and move rows in between; a tenth of the other cases with <Suspense> (over an "
             "AsyncDerived of signals, executor run to idle between writes) or <ErrorBoundary> at the top of the view (implementation-side oracle only, "
             "the model prints `skip`); histories of 3-15 writes with `poll i` (1-3 polls of the i-th ready task) or `idle` or nothing in between, a sixth "
             "with a disposal in the middle; plus EXHAUSTIVE schedules: 12 small programs x every poll sequence of length <= 3 over ready indices 0..2 "
-            "(40 schedules, applied after each of 3 rounds of writes, forwards and backwards) = 480 cases; the REAL leptos Show/For/Either/closures "
+            "(40 schedules, applied after each of 3 rounds of writes, forwards and backwards) = 480 cases, the same for 4 small programs with row-local / "
+            "branch-local memos = 160 cases; the REAL leptos Show/For/Either/closures "
             "mounted with mount_to_renderer into the native DOM on the harness executor; observable at EVERY op line = ready list + the whole DOM with "
             "node ids (renumbered by first appearance) and mutation counters; distinct = distinct op lines of a case; non-trivial = the view has a dynamic part",
     "trusted": [
@@ -68,11 +73,19 @@ CFG = {
         "RenderEffect::new_with_value_erased (first run synchronous, then spawn; task loop; value Arc kept alive by the task until it ends)",
         "Either::{build, rebuild}, leptos Show (ArcMemo over the boolean + Either), leptos For (keyed(..) = Leptos.Keyed.rebuild), String / () / HtmlElement / tuple build and rebuild",
         "mount_to_renderer / UnmountHandle drop",
+        "component-local state and its owners: `Memo::new` / `RwSignal::new` in a component body register the value with the CURRENT owner (the render effect whose run "
+        "constructs the view; the row's owner `parent.with(Owner::new)` of leptos For, held by OwnedView; the mount owner); `Owner::with_cleanup` on every effect re-run and "
+        "`Drop for OwnerInner` dispose them, children first (Model: View.scope / View.forRows, killAll in rebuild / dropState; rows kept by the keyed diff keep their state)",
         "NOT modelled (implementation-side oracle only): Suspense, ErrorBoundary; not exercised: Transition, OwnedView contexts, hydration",
     ],
     "assumptions": [
         "expressions of dynamic parts are pure functions of signals and memos (tracked reads only, no writes): the harness interprets them inside real closures",
-        "attribute sources of one element have pairwise different names; key lists of a <For> are duplicate-free; rows of a <For> are static",
+        "attribute sources of one element have pairwise different names; key lists of a <For> are duplicate-free",
+        "generated views with component-local state stay in the class where the real code cannot read a disposed value and where the model's disposal order is the real one: "
+        "state is read at the effect level of the body that created it; an effect expression that reads component-local state reads no program node; each component-local memo "
+        "has one reader among effect expressions and Show conditions; a `setl` stands between two `idle`; lists sit in the region of the mounted view only and such a view is not "
+        "disposed mid-history (leptos For captures `Owner::current()`, which keeps that owner alive until the list's task has ended). Outside this class the real code can PANIC "
+        "(F-C04-2, props/C04.known; the model predicts it: class read-disposed); the untouched-nodes oracle is not applied to these views (fresh-render oracle at every idle point is)",
         "C04_settles (= C04_settles_for) is proved unconditionally (every history, every schedule, disposal included) for views made of static structure, "
         "dynamic leaves (text, attribute, class, style), `move || Either` and <For> (through C11_build_wf / C11_storage_is_to / C11_dom_order) nested "
         "arbitrarily, all over signals; C04_untouched_nodes for the same class, a <For> counting as ONE dynamic part (all its rows governed by the "
